@@ -10,7 +10,7 @@ import os, sys, time, json, subprocess, ast, inspect, textwrap
 from fractions import Fraction
 from vf.engine.driver import Harness, run_property, ROOT
 
-EXPLANATION = ('Real signal classes are fed symbolic positive price streams (two assets, two lookbacks in one object); after every '
+EXPLANATION = ('Real signal classes are fed symbolic positive price streams (two assets, two or three lookbacks in one object); after every '
                'append z3 proves momentum, moving average and volatility equal their trailing-window definitions (warm-up '
                'included). SignalsCollection.update runs with a dynamic universe whose entry times and update times are symbolic '
                'instants: one append per tracked asset per update, priced at that update\'s time, new assets start empty. The '
@@ -29,14 +29,14 @@ DEADLINE = {'quick': 1500, 'thorough': 3400}
 def configs(tier):
     out = []
     if tier == 'quick':
-        streams = [(5, [1, 2]), (5, [2, 3])]
+        streams = [(5, [1, 2]), (5, [2, 3]), (4, [1, 2, 3])]
         upd = [3]
     else:
-        streams = [(5, [1, 2]), (5, [2, 3]), (6, [3, 4]), (7, [2, 4])]
+        streams = [(5, [1, 2]), (5, [2, 3]), (4, [1, 2, 3]), (6, [3, 4]), (7, [2, 4]), (6, [1, 3, 4])]
         upd = [3, 4]
     for ell, lbs in streams:
         out.append(dict(name='streams_len%d_lb%s' % (ell, '_'.join(map(str, lbs))), kind='streams', ell=ell, lbs=lbs, weight=ell * 10,
-                        bound='2 assets, lookbacks %s in one signal object, %d symbolic prices each' % (lbs, ell),
+                        bound='2 assets, %d lookbacks %s in one signal object, %d symbolic prices each' % (len(lbs), lbs, ell),
                         twins=['stream_consumed']))
     out.append(dict(name='nonpositive_price', kind='badprice', weight=1, bound='one price of arbitrary sign appended to each signal kind',
                     twins=['rejected', 'accepted']))
